@@ -42,13 +42,28 @@ pub fn build_arena(base: usize, pages: usize, special: &[usize], kbase: u32) -> 
     let mut buf = vec![0xCCu8; len];
     let mut k = kbase;
     let mut off = 0;
+    let clashes = |a: usize| special.iter().any(|&s| a + SLOT > s.saturating_sub(SLOT) && a < s + 2 * SLOT);
+    let mut stub_pending = false;
     while off + SLOT <= len {
         let a = base + off;
-        let clash = special.iter().any(|&s| a + SLOT > s.saturating_sub(SLOT) && a < s + 2 * SLOT);
-        if !clash {
-            buf[off..off + SLOT].copy_from_slice(&func_bytes(k));
-            funcs.push((a, k));
-            k += 1;
+        if !clashes(a) {
+            // every seventh function is a linker-style stub: its whole entry is `jmp rel32` to
+            // the function in the next slot (whose value it therefore returns).  A library that
+            // "sees through" such an entry writes outside the slot it was asked to patch.
+            let next_ok = off + 2 * SLOT <= len && !clashes(a + SLOT);
+            if funcs.len() % 7 == 3 && next_ok && !stub_pending {
+                let mut b = vec![0xCCu8; SLOT];
+                b[0] = 0xE9;
+                b[1..5].copy_from_slice(&((SLOT as i32) - 5).to_le_bytes());
+                buf[off..off + SLOT].copy_from_slice(&b);
+                funcs.push((a, k)); // k is the value of the function that follows
+                stub_pending = true;
+            } else {
+                buf[off..off + SLOT].copy_from_slice(&func_bytes(k));
+                funcs.push((a, k));
+                k += 1;
+                stub_pending = false;
+            }
         }
         off += SLOT;
     }
@@ -509,7 +524,7 @@ pub fn run(a: &Args, out: &mut impl Write) {
                 targets.push(lay.funcs[nf - 3 + i]);
             }
             // some aligned ones, including neighbours of each other and first/last slots of pages
-            for idx in [0usize, 1, 2, 254, 255, 300] {
+            for idx in [0usize, 1, 2, 3, 4, 254, 255, 300] {
                 targets.push(lay.funcs[idx.min(nf - 4)]);
             }
             for _ in 0..3 {
